@@ -3644,6 +3644,29 @@ theorem Inv.opBody {σ : State} {t : Loc} (sl : Option Loc) (op : Op) (inv : Inv
       | flt _ => exact Or.inl ⟨_, rfl, ba⟩
       | arr _ => exact Or.inl ⟨_, rfl, ba⟩
       | obj _ => exact Or.inl ⟨_, rfl, ba⟩
+  | setKey p q i =>
+    simp only [Var.opBody, Var.assignKey]
+    rcases Inv.srcVal (σ := σ) (T := []) sl with h1 | ⟨src, h1, hsrc⟩
+    · rw [h1]; exact Or.inl ⟨_, rfl, srcMovedR⟩
+    · rw [h1]
+      cases src with
+      | obj id =>
+        simp only []
+        obtain ⟨b, hb, _⟩ := Held.live inv hsrc id rfl
+        rw [hb]
+        simp only []
+        cases b.items[i]? with
+        | some kv => exact Or.inr (inv.assignString hl)
+        | none => exact Or.inl ⟨_, rfl, ba⟩
+      | str _ => exact Or.inl ⟨_, rfl, ba⟩
+      | sstr _ => exact Or.inl ⟨_, rfl, ba⟩
+      | none => exact Or.inl ⟨_, rfl, ba⟩
+      | null => exact Or.inl ⟨_, rfl, ba⟩
+      | bool _ => exact Or.inl ⟨_, rfl, ba⟩
+      | int _ => exact Or.inl ⟨_, rfl, ba⟩
+      | num _ => exact Or.inl ⟨_, rfl, ba⟩
+      | flt _ => exact Or.inl ⟨_, rfl, ba⟩
+      | arr _ => exact Or.inl ⟨_, rfl, ba⟩
   | clone k q => exact Or.inl ⟨_, rfl, ba⟩
   | copy k q => exact Or.inl ⟨_, rfl, ba⟩
   | drop k => exact Or.inl ⟨_, rfl, ba⟩
@@ -3856,6 +3879,7 @@ theorem Inv.rootOp {σ : State} (op : Op) (inv : Inv σ []) : BodyOK σ (Var.roo
   | extend p q => exact Or.inl ⟨_, rfl, ba⟩
   | setSub p off => exact Or.inl ⟨_, rfl, ba⟩
   | setCs p q off => exact Or.inl ⟨_, rfl, ba⟩
+  | setKey p q i => exact Or.inl ⟨_, rfl, ba⟩
 
 /-- result of a statement: executed, or refused by one of the guards -/
 def Safe : Except Err Unit → Prop
